@@ -280,9 +280,12 @@ class MonitorPool(Module):
             basis. Its monitors are however deleted.
         """
         if name in self.monitors_:
-            for monitor in self.monitors_[name].values():
-                monitor.deregister()
+            group = self.monitors_[name]
             del self.monitors_[name]
+            aliased = {id(m) for m in self.monitors}
+            for monitor in group.values():
+                if id(monitor) not in aliased:
+                    monitor.deregister()
 
         if name in self.observed_:
             del self.observed_[name]
@@ -382,9 +385,11 @@ class MonitorPool(Module):
                 f"observable with name '{observed}'"
             )
 
-        # delete the monitor
-        self.monitors_[observed][monitor].deregister()
+        # delete the monitor, keep it registered if another observable aliases it
+        target = self.monitors_[observed][monitor]
         del self.monitors_[observed][monitor]
+        if all(m is not target for m in self.monitors):
+            target.deregister()
 
         # delete group if empty
         if not len(self.monitors_[observed]):
